@@ -52,7 +52,7 @@ def op (j : Json) : P Op := do
   | "scn_remove_lanelets" => pure (.scnRemoveLanelets (← getList rmArg j "args") (← getBool j "ref"))
   | "scn_remove_signs" => pure (.scnRemoveSigns (← ids j "xs"))
   | "scn_remove_lights" => pure (.scnRemoveLights (← ids j "xs"))
-  | "scn_remove_inter" => pure (.scnRemoveInter (← getNat j "x") (← ids j "incs"))
+  | "scn_remove_inter" => pure (.scnRemoveInter (← getNat j "x"))
   | "cut_out" => pure (.cutOut (← ids j "keep") (← getBool j "cleanup"))
   | "from_list" => pure (.fromList (← ids j "sel") (← getBool j "cleanup"))
   | o => throw s!"C10: unknown history op {o}"
@@ -89,6 +89,12 @@ def stepJ (r : Scn × Option CR.Err) : Json :=
     ("err", match r.2 with | none => Json.null | some e => Json.str e.toString),
     ("nd", Json.bool (decide (NoDangling r.1.net))), ("wf", Json.bool (decide (Wf r.1.net)))]
 
+def pairJ (p : Nat × Nat) : Json := Json.arr #[natJ p.1, natJ p.2]
+
+def selectionJ (x : Selection) : Json :=
+  Json.mkObj [("L", natsJ x.lan), ("S", natsJ x.sign), ("T", natsJ x.light), ("I", natsJ x.inter),
+    ("K", Json.arr (x.inc.map pairJ).toArray)]
+
 def handle (o : String) (a : Json) : P Json := do
   match o with
   | "run" =>
@@ -96,6 +102,11 @@ def handle (o : String) (a : Json) : P Json := do
     let s ← scn (← field a "init")
     let ops ← getList op a "ops"
     pure <| Json.arr ((s.trace ops).map stepJ).toArray
+  | "selections" =>
+    -- what every operation of the history selects for removal in the state it meets
+    let s ← scn (← field a "init")
+    let ops ← getList op a "ops"
+    pure <| Json.arr ((s.selections ops).map selectionJ).toArray
   | "check" =>
     -- the two predicates of the property on one network
     let n ← net (← field a "net")
